@@ -224,6 +224,28 @@ def random_program(rng, display):
                 startstop=any(o["k"] in ("start", "stop") for ops in threads for o in ops))
 
 
+def pair_programs():
+    """2 threads x 1 call each: every unordered pair of call kinds, per display."""
+    def op(k, i):
+        if k in ("print", "capture"):
+            return dict(k=k, id=i, n=1)
+        if k == "log":
+            return dict(k=k, id=i)
+        if k == "bufcapture":
+            return dict(k=k, id=10 + i, id2=20 + i, n=1)
+        if k == "export":
+            return dict(k=k, html=i == 1)
+        if k == "update":
+            return dict(k=k, v=i, h=1 + i)
+        return dict(k=k)
+    for display, extra in (("none", []), ("live", ["update", "refresh"]), ("progress", ["advance", "refresh"])):
+        kinds = ["print", "log", "capture", "bufcapture", "export"] + extra
+        for a in range(len(kinds)):
+            for b in range(a, len(kinds)):
+                if display == "none" or kinds[a] in extra or kinds[b] in extra or (kinds[a], kinds[b]) in (("print", "log"), ("print", "print"), ("log", "log")):
+                    yield dict(display=display, auto_refresh=False, threads=[[op(kinds[a], 1)], [op(kinds[b], 2)]], startstop=False)
+
+
 def run(chk: Check):
     chk.rule = ("a case is (program, schedule): programs of 2-4 threads x 1-2 calls over print / log / capture / export / update+refresh / refresh / "
                 "advance with no display, a Live or a Progress (optionally with its refresh thread); schedules by DFS with pre-emption "
@@ -265,6 +287,18 @@ def run(chk: Check):
         if not rf.violated:
             chk.drift_note("the faithful model (print does not hold the live lock from hook to write) no longer violates the screen invariant")
         chk.mark("M1")
+        # every PAIR of calls, one per thread, on every display, under every schedule with one pre-emption at a lock / write / event
+        # point: a lock-order inversion between two calls needs exactly the two of them and one pre-emption
+        npairs = 0
+        for prog in pair_programs():
+            d = dsched.DFS(bound=1, max_runs=chk.pick(150, 600))
+            while d.more():
+                rec = run_program(prog, d.strategy())
+                d.done()
+                runs.append((dict(program=prog, choices=rec["choices"]), rec))
+            npairs += 1
+        chk.notes["pair_programs"] = npairs
+        chk.mark("execute-pairs")
         for pi in range(chk.pick(15, 90)):
             display = ["none", "live", "progress"][pi % 3]
             prog = random_program(chk.rng, display)
